@@ -4,6 +4,8 @@ import PdfModel.Generated.Schemas
 import PdfModel.Generated.Dispatch
 import PdfModel.Model.Handwritten2
 import PdfModel.Model.ColorSpaceWrite
+import PdfModel.Model.FontWrite
+import PdfModel.Model.HandTower
 import PdfModel.Generated.Lexical
 
 /-! Line-protocol handler for the C15 streams (also used by Drv/C18).
@@ -451,9 +453,41 @@ def handleCs (args : List String) : String :=
     | _ => "bad-request"
   | _ => "bad-request"
 
+/-! ### `Font::to_primitive` (`c15.font <peel> <tolerant> <objs> <prim>`)
+
+  read (`FontLoad.readFont`, C01, over the tower `semM`), the writer's view of the value (`FontLoad.ofRead`), write
+  (`FontLoad.writeFont`), read back. Answer: `ok <written> <variant read back> <name read back>` -/
+
+def fontSem (cfg : Cfg) : Sem := semM cfg Generated.generatedSchemas (fun _ _ _ => .error .other) 3
+
+def variantName (subtype : String) : String :=
+  match FontLoad.variantOf subtype with
+  | .other => "Other"
+  | v => v.tag
+
+def handleFont (args : List String) : String :=
+  match args with
+  | [_, peel, tol, objs, prim] =>
+    match boolOf peel, boolOf tol, parseObjects objs, parsePrimAll prim, fontSchemas Generated.generatedSchemas with
+    | some pl, some tl, some os, some p, some S =>
+      let cfg : Cfg := ⟨pl⟩
+      let env := mkEnv os [] tl
+      match FontLoad.readFont cfg (fontSem cfg) S env p with
+      | .error _ => "rerr"
+      | .ok v =>
+        match FontLoad.writeFont (fontSem cfg) S (FontLoad.ofRead sortDiffs v) with
+        | .error _ => "werr"
+        | .ok p1 =>
+          match FontLoad.readFont cfg (fontSem cfg) S env p1 with
+          | .error _ => s!"rerr2 {showPrim p1}"
+          | .ok v2 => s!"ok {showPrim p1} {variantName v2.plan.subtype} {(v2.plan.name.map hexOfString).getD "-"}"
+    | _, _, _, _, _ => "bad-request"
+  | _ => "bad-request"
+
 def handle (args : List String) : String :=
   match args with
   | "c15.rt" :: _ => handleRt args
+  | "c15.font" :: _ => handleFont args
   | "c15.cs" :: _ => handleCs args
   | "c15.vw" :: _ => handleVw args
   | "c15.hw" :: _ => handleHw args
